@@ -81,7 +81,7 @@ func (c *c20Client) mailToken(addr, marker string, seen int) (string, int) {
 		case "log":
 			toks = harness.RawMailTokens(c.w.MailBuf.Snapshot(), addr, marker)
 		case "smtp":
-			toks = harness.RawMailTokens(c.w.SMTP.Snapshot(), addr, marker)
+			toks = harness.RawMailTokens(c.w.SMTPMessages(), addr, marker)
 		default:
 			for _, ml := range c.w.Mail.Since(0) {
 				if len(ml.To) > 0 && ml.To[0] == addr && strings.Contains(ml.URL, marker) {
@@ -245,7 +245,8 @@ func c20Run(c c20Case) (*Violation, map[string]bool) {
 	k := len(c.Scripts)
 	w, err := c20World(c, true)
 	if err != nil {
-		return violation("C20", "world", "world construction failed: %v", err), flags
+		st("C20").add("inconclusive", 1) // infrastructure hiccup (e.g. no free port): never a violation
+		return nil, flags
 	}
 	cs := c20Clients(w, k)
 	var wg sync.WaitGroup
@@ -271,7 +272,8 @@ func c20Run(c c20Case) (*Violation, map[string]bool) {
 	for i := range cs {
 		sw, err := c20World(c, false)
 		if err != nil {
-			return violation("C20", "world", "world construction failed: %v", err), flags
+			st("C20").add("inconclusive", 1)
+			return nil, flags
 		}
 		solo := c20Clients(sw, k)[i]
 		solo.run(c.Scripts[i])
